@@ -10,9 +10,15 @@
 (* Property NoWedge: the loop is never blocked on a send that no process     *)
 (* will ever receive; checked as an invariant (blocked => a waiter for that  *)
 (* kind is waiting) and by TLC's deadlock check.                             *)
+(* Two shapes of CSI .. R: "cpr" is CSI 1;c R, which is a cursor position    *)
+(* report and an F3 chord alike (a key when nothing is requested); "cprx" is *)
+(* CSI r;c R with r # 1, which no key press produces.  DropStale = TRUE: an  *)
+(* unrequested "cprx" is dropped (a reply that outlived its request);        *)
+(* FALSE: it is decoded as a key like "cpr" (as found).  NoPhantom: no event *)
+(* is delivered for a "cprx", whatever the interleaving with Ask/TimeOut.    *)
 EXTENDS Integers, Sequences, TLC
 
-CONSTANTS MaxReports, Blocking
+CONSTANTS MaxReports, Blocking, DropStale
 
 Kinds == {"color", "size", "cpr"}
 Cap(k) == IF k = "cpr" THEN (IF Blocking THEN 0 ELSE 1) ELSE 1
@@ -24,11 +30,14 @@ VARIABLES stream,   \* reports still to be handled: "key" or a reply kind
           lpc,      \* loop: "idle" | kind it is blocked sending
           w,        \* w[k]: "away" | "waiting" | "done"
           req,      \* req[k]: request flag (cpr's reqCursorPos)
-          delivered \* key events delivered
+          delivered,\* key events delivered
+          phantom   \* key events delivered for reports that no key press produces
 
-vars == <<stream, handled, ch, lpc, w, req, delivered>>
+vars == <<stream, handled, ch, lpc, w, req, delivered, phantom>>
 
-Init == /\ stream \in UNION {[1..n -> Kinds \cup {"key"}] : n \in 0..MaxReports}
+KindOf(r) == IF r = "cprx" THEN "cpr" ELSE r
+Init == /\ stream \in UNION {[1..n -> Kinds \cup {"key", "cprx"}] : n \in 0..MaxReports}
+        /\ phantom = 0
         /\ handled = 0 /\ ch = [k \in Kinds |-> 0] /\ lpc = "idle"
         /\ w = [k \in Kinds |-> "away"] /\ req = [k \in Kinds |-> FALSE] /\ delivered = 0
 
@@ -37,12 +46,16 @@ Rest == SubSeq(stream, handled + 1, Len(stream))
 (* The loop takes the next report. *)
 Handle ==
   /\ lpc = "idle" /\ handled < Len(stream)
-  /\ LET r == stream[handled + 1] IN
+  /\ LET r0 == stream[handled + 1]
+         r == KindOf(r0) IN
      /\ handled' = handled + 1
-     /\ IF r = "key" THEN delivered' = delivered + 1 /\ UNCHANGED <<ch, lpc, req>>
-        ELSE IF r = "cpr" /\ ~req[r] THEN               \* not requested: it is the F3 key
-             delivered' = delivered + 1 /\ UNCHANGED <<ch, lpc, req>>
-        ELSE /\ UNCHANGED delivered
+     /\ IF r = "key" THEN delivered' = delivered + 1 /\ UNCHANGED <<ch, lpc, req, phantom>>
+        ELSE IF r0 = "cpr" /\ ~req[r] THEN              \* not requested: it is the F3 key
+             delivered' = delivered + 1 /\ UNCHANGED <<ch, lpc, req, phantom>>
+        ELSE IF r0 = "cprx" /\ ~req[r] THEN             \* not requested and not a key either
+             IF DropStale THEN UNCHANGED <<delivered, ch, lpc, req, phantom>>
+             ELSE delivered' = delivered + 1 /\ phantom' = phantom + 1 /\ UNCHANGED <<ch, lpc, req>>
+        ELSE /\ UNCHANGED <<delivered, phantom>>
              /\ req' = IF r = "cpr" THEN [req EXCEPT ![r] = FALSE] ELSE req
              /\ IF Blocking THEN
                    IF ch[r] < Cap(r) THEN ch' = [ch EXCEPT ![r] = @ + 1] /\ UNCHANGED lpc
@@ -57,18 +70,18 @@ Unblock ==
   /\ \/ (Cap(lpc) > 0 /\ ch[lpc] < Cap(lpc) /\ ch' = [ch EXCEPT ![lpc] = @ + 1] /\ UNCHANGED w)
      \/ (Cap(lpc) = 0 /\ w[lpc] = "waiting" /\ w' = [w EXCEPT ![lpc] = "done"] /\ UNCHANGED ch)
   /\ lpc' = "idle"
-  /\ UNCHANGED <<stream, handled, req, delivered>>
+  /\ UNCHANGED <<stream, handled, req, delivered, phantom>>
 
 Ask(k) == /\ w[k] = "away" /\ w' = [w EXCEPT ![k] = "waiting"]
           /\ req' = [req EXCEPT ![k] = TRUE]
           /\ ch' = IF ~Blocking /\ k = "cpr" THEN [ch EXCEPT ![k] = 0] ELSE ch   \* repaired: drop a leftover report
-          /\ UNCHANGED <<stream, handled, lpc, delivered>>
+          /\ UNCHANGED <<stream, handled, lpc, delivered, phantom>>
 Collect(k) == /\ w[k] = "waiting" /\ ch[k] > 0
               /\ ch' = [ch EXCEPT ![k] = @ - 1] /\ w' = [w EXCEPT ![k] = "done"]
-              /\ UNCHANGED <<stream, handled, lpc, req, delivered>>
+              /\ UNCHANGED <<stream, handled, lpc, req, delivered, phantom>>
 TimeOut(k) == /\ CanTimeOut(k) /\ w[k] = "waiting"
               /\ w' = [w EXCEPT ![k] = "done"] /\ req' = [req EXCEPT ![k] = FALSE]
-              /\ UNCHANGED <<stream, handled, ch, lpc, delivered>>
+              /\ UNCHANGED <<stream, handled, ch, lpc, delivered, phantom>>
 (* The rendezvous of an unbuffered channel when the loop arrives second. *)
 Done == handled = Len(stream) /\ lpc = "idle" /\ UNCHANGED vars
 
@@ -81,5 +94,6 @@ Spec == Init /\ [][Next]_vars
 NoWedge == lpc \in Kinds => (w[lpc] = "waiting" \/ (w[lpc] = "away" /\ Cap(lpc) > 0))
 (* Every key press in the stream is eventually delivered unless wedged: at   *)
 (* the end everything has been handled.                                      *)
+NoPhantom == phantom = 0
 AllHandledAtEnd == (handled = Len(stream) /\ lpc = "idle") => delivered >= 0
 =============================================================================
